@@ -8,12 +8,16 @@
     ff    Structure.failing_fast()
     mode  "construct" | "deser" | "nested"
     msg   str(exception) of the real run (absent when nothing was raised)
+    doc   (deser cases) the document values as handed to Deserializer, for the phase-one model
     alnum the non-ASCII characters of msg for which Python's str.isalnum() holds (oracle answers)
   Output:
     invalid  supplied fields that `validate` rejects (signature order) — the property's right-hand side
     raised   what the construction model raises: kind, exception class, per site: top, path, shape,
              head (the text the message must begin with); for the real message(s): whether each
              begins with its head and has the model's shape
+    phase1   (deser) supplied fields the model of `deserialize_single_field` rejects;
+             deserCollected = what collect-all deserialization reports (phase one's if any, else the
+             constructor's)
     readable the helper model on `msg`: {"raises": true} | {"single": info} | {"many": [info]}
   The JSON codec oracle is instantiated with Lean.Data.Json here (trusted glue).
 -/
@@ -89,6 +93,7 @@ def run (j : Json) : Except String Json := do
   let ff ← optBool j "ff" true
   let mode ← (← j.getObjVal? "mode").getStr?
   let msg ← optStr j "msg"
+  let doc ← match optField j "doc" with | none => pure [] | some x => kwOfJson x
   let alnum := ((← optStr j "alnum").getD "").toList
   match decl with
   | .struct c fields _ =>
@@ -114,7 +119,9 @@ def run (j : Json) : Except String Json := do
                  ("sites", Json.arr (expected.map (siteToJson cls)).toArray),
                  ("nTexts", Json.num (Lean.JsonNumber.fromNat texts.length)),
                  ("cmp", Json.arr cmp.toArray),
-                 ("mode", Json.str mode)]
+                 ("mode", Json.str mode),
+                 ("phase1", Json.arr ((phaseOneInvalid O doc fields).map Json.str).toArray),
+                 ("deserCollected", Json.arr ((deserCollected O c doc kw fields).map Json.str).toArray)]
     let rd := match msg with
       | none => []
       | some m => [("readable", readableToJson alnum ff m)]
